@@ -17,12 +17,50 @@ use std::collections::{BTreeMap, HashMap};
 
 // ------------------------------------------------------------------------------------------
 // front end
+fn ann_mentions(a: &aelys_syntax::TypeAnnotation, n: &str) -> bool {
+    a.name == n
+        || a.type_param.as_ref().is_some_and(|i| ann_mentions(i, n))
+        || a.fn_params.as_ref().is_some_and(|ps| ps.iter().any(|p| ann_mentions(p, n)))
+        || a.fn_ret.as_ref().is_some_and(|r| ann_mentions(r, n))
+}
+
+/// generic functions of the SOURCE with a type parameter written in none of their parameter annotations
+fn source_uninferable(stmts: &[aelys_syntax::Stmt], out: &mut Vec<String>) {
+    use aelys_syntax::StmtKind as K;
+    for s in stmts {
+        match &s.kind {
+            K::Function(f) => {
+                if f.type_params.iter().any(|tp| !f.params.iter().any(|p| p.type_annotation.as_ref().is_some_and(|a| ann_mentions(a, tp)))) {
+                    out.push(f.name.clone());
+                }
+                source_uninferable(&f.body, out);
+            }
+            K::Block(b) => source_uninferable(b, out),
+            K::If { then_branch, else_branch, .. } => {
+                source_uninferable(std::slice::from_ref(then_branch), out);
+                if let Some(e) = else_branch {
+                    source_uninferable(std::slice::from_ref(e), out);
+                }
+            }
+            K::While { body, .. } | K::For { body, .. } | K::ForEach { body, .. } => source_uninferable(std::slice::from_ref(body), out),
+            _ => {}
+        }
+    }
+}
+
+thread_local! {
+    static SOURCE_UNINFERABLE: std::cell::RefCell<Vec<String>> = std::cell::RefCell::new(Vec::new());
+}
+
 fn front(code: &str) -> Result<TypedProgram, String> {
     use aelys_frontend::lexer::Lexer;
     use aelys_frontend::parser::Parser;
     let src = aelys_syntax::Source::new("<verif>", code);
     let tokens = Lexer::with_source(src.clone()).scan().map_err(|e| format!("lex: {}", e))?;
     let ast = Parser::new(tokens, src.clone()).parse().map_err(|e| format!("parse: {}", e))?;
+    let mut un = Vec::new();
+    source_uninferable(&ast, &mut un);
+    SOURCE_UNINFERABLE.with(|c| *c.borrow_mut() = un);
     aelys_sema::TypeInference::infer_program(ast, src)
         .map_err(|es| format!("sema: {}", es.iter().map(|e| format!("{}", e)).collect::<Vec<_>>().join("; ")))
 }
@@ -1563,12 +1601,38 @@ impl<'a> Gen<'a> {
             self.fresh += 1;
             s.push_str(&format!("if true {{\n  struct Top{} {{ x: int }}\n}}\nfn usetop{}() -> int {{\n  let t = Top{} {{ x: 1 }}\n  return t.x\n}}\n", k, k, k));
         }
-        if self.rng.chance(1, 8) {
-            // a struct declared after a return (dead code for the optimizer, still a declaration)
-            self.st.hit("struct-declared-after-return");
+        if self.rng.chance(1, 6) {
+            // a struct declared in code the optimizer removes (behind a return, in a constant-false branch, in the
+            // else of `if true`, in a `while false` body), used by a literal elsewhere: still a declaration
+            self.st.hit("struct-declared-in-dead-code");
             let k = self.fresh;
             self.fresh += 1;
-            s.push_str(&format!("fn deadd{}() -> int {{\n  return 1\n  struct Late{} {{ x: int }}\n}}\nfn uselate{}() -> int {{\n  let t = Late{} {{ x: 2 }}\n  return t.x\n}}\n", k, k, k, k));
+            let decl = format!("struct Late{} {{ x: int }}", k);
+            let holder = match self.rng.below(5) {
+                0 => format!("  return 1\n  {}\n", decl),
+                1 => format!("  if false {{\n    {}\n  }}\n  return 1\n", decl),
+                2 => format!("  if true {{\n    print(1)\n  }} else {{\n    {}\n  }}\n  return 1\n", decl),
+                3 => format!("  while false {{\n    {}\n  }}\n  return 1\n", decl),
+                _ => format!("  if false {{\n    {}\n  }}\n  let q = Late{} {{ x: 5 }}\n  return q.x\n", decl, k),
+            };
+            s.push_str(&format!("fn deadd{}() -> int {{\n{}}}\nfn uselate{}() -> int {{\n  let t = Late{} {{ x: 2 }}\n  return t.x\n}}\n", k, holder, k, k));
+        }
+        if !nested_only && self.rng.chance(1, 5) {
+            // a type parameter spelled in lower case or like a builtin, mentioned only INSIDE a container type,
+            // with every spelling of the container names; the callee has a loop so that the inliner leaves it alone
+            self.st.hit("odd-type-param-inside-container");
+            let k = self.fresh;
+            self.fresh += 1;
+            let tp = *self.rng.pick(&["t", "u", "elem", "Int", "Float", "String"]);
+            let (cont, mk) = *self.rng.pick(&[("vec", "Vec"), ("Vec", "Vec"), ("VEC", "Vec"), ("array", "Array"), ("Array", "Array")]);
+            let nested = self.rng.chance(1, 3);
+            let (pty, a1, a2) = if nested {
+                let (inner, imk) = if mk == "Vec" { ("array", "Array") } else { ("vec", "Vec") };
+                (format!("{}<{}<{}> >", cont, inner, tp), format!("{}[{}[1, 2]]", mk, imk), format!("{}[{}[\"a\"]]", mk, imk))
+            } else {
+                (format!("{}<{}>", cont, tp), format!("{}[1, 2, 3]", mk), format!("{}[\"a\", \"b\"]", mk))
+            };
+            s.push_str(&format!("fn cnt{}<{}>(xs: {}, limit: int) -> int {{\n  let mut n = 0\n  while n < limit {{\n    n = n + 1\n  }}\n  return n\n}}\nfn usecnt{}() -> int {{\n  let v = {}\n  let w = {}\n  return cnt{}(v, 3) + cnt{}(w, 2)\n}}\n", k, tp, pty, k, a1, a2, k, k));
         }
         if !nested_only && self.rng.chance(1, 12) {
             // a type parameter that occurs in no parameter type cannot be inferred at a call
@@ -1878,6 +1942,8 @@ fn run_case(case: &str, code: &str, modes: &[&str], st: &mut Stats) {
             }
         }
         collect_uninferable(&tp.stmts, &mut uninferable);
+        // what counts for the open finding is what the SOURCE says (the typed program may have lost a mention)
+        let uninferable: Vec<String> = SOURCE_UNINFERABLE.with(|c| c.borrow().clone());
         let mut generic_ids: Vec<u32> = pre.functions.iter().filter(|f| !f.type_params.is_empty()).map(|f| f.id.0).collect();
         let mut fs = Vec::new();
         validate::structural(&pre, &tp_names, &generic_ids, &declared_structs, &toplevel_nested, &declared_before_opt, &mut fs);
